@@ -17,7 +17,9 @@ PROP = dict(
     level_note=('the model is 128-bit integer arithmetic plus the documented '
                 'width tables of harness/vf_ref.c (validated in C04); trusts '
                 'the case decoder and the compilers; bytes inside the slot '
-                'but beyond the returned width are not constrained'),
+                'but beyond the returned width are not constrained; for the '
+                'external family the returned width may be anything from the '
+                'sum\'s minimal width up to the slot (no-grow) or 8 (grow)'),
     rule=('case = (family tagged|external, grow|no-grow, fill, up to 6 records '
           '(boundary-biased stored value, external slot width >= minimal, '
           'amount kind and parameter)); non-trivial = the sum has a different '
@@ -46,8 +48,13 @@ PROP = dict(
         'in a 9-byte buffer (documented minimum for the tagged writer); '
         'external slots may be wider than minimal (zero padded), the grow '
         'form is given the 8 bytes it may extend to',
-        '"width of what is now stored" is the minimal width of the sum, which '
-        'is what the add functions write; stale bytes between the returned '
-        'width and the old slot width are not constrained',
+        '"width of what is now stored": for the tagged family (one encoding '
+        'per value, C04/C05) the minimal width of the sum; for the external '
+        'family any width w with minimal <= w <= slot (no-grow) / <= 8 (grow) '
+        'such that the slot read with w bytes is the sum - a wider '
+        'fixed-width form is a legal external varint, and whether the add '
+        're-encodes at the minimal width (as the pinned code does) or keeps '
+        'the caller\'s slot width is not fixed by the property; bytes between '
+        'the returned width and the old slot width are not constrained',
     ],
 )
